@@ -653,7 +653,7 @@ func NewPeerFromConfigStruct(pconf *Neighbor) *api.Peer {
 		},
 		RouteReflector: &api.RouteReflector{
 			RouteReflectorClient:    pconf.RouteReflector.Config.RouteReflectorClient,
-			RouteReflectorClusterId: pconf.RouteReflector.State.RouteReflectorClusterId.String(),
+			RouteReflectorClusterId: routeReflectorClusterID(&pconf.RouteReflector).String(),
 		},
 		RouteServer: &api.RouteServer{
 			RouteServerClient: pconf.RouteServer.Config.RouteServerClient,
@@ -690,6 +690,15 @@ func NewPeerFromConfigStruct(pconf *Neighbor) *api.Peer {
 	}
 }
 
+// routeReflectorClusterID returns the cluster id in effect (State, which is
+// derived only for route reflector clients) or else the configured one.
+func routeReflectorClusterID(rr *RouteReflector) netip.Addr {
+	if rr.State.RouteReflectorClusterId.IsValid() {
+		return rr.State.RouteReflectorClusterId
+	}
+	return rr.Config.RouteReflectorClusterId
+}
+
 func NewPeerGroupFromConfigStruct(pconf *PeerGroup) *api.PeerGroup {
 	afiSafis := make([]*api.AfiSafi, 0, len(pconf.AfiSafis))
 	for _, f := range pconf.AfiSafis {
@@ -702,6 +711,13 @@ func NewPeerGroupFromConfigStruct(pconf *PeerGroup) *api.PeerGroup {
 
 	timer := pconf.Timers
 	s := pconf.State
+	var removePrivate api.RemovePrivate
+	switch pconf.Config.RemovePrivateAs {
+	case REMOVE_PRIVATE_AS_OPTION_ALL:
+		removePrivate = api.RemovePrivate_REMOVE_PRIVATE_ALL
+	case REMOVE_PRIVATE_AS_OPTION_REPLACE:
+		removePrivate = api.RemovePrivate_REMOVE_PRIVATE_REPLACE
+	}
 	return &api.PeerGroup{
 		ApplyPolicy: newApplyPolicyFromConfigStruct(&pconf.ApplyPolicy),
 		Conf: &api.PeerGroupConf{
@@ -712,6 +728,7 @@ func NewPeerGroupFromConfigStruct(pconf *PeerGroup) *api.PeerGroup {
 			RouteFlapDamping:     pconf.Config.RouteFlapDamping,
 			Description:          pconf.Config.Description,
 			PeerGroupName:        pconf.Config.PeerGroupName,
+			RemovePrivate:        removePrivate,
 			SendSoftwareVersion:  pconf.Config.SendSoftwareVersion,
 			AllowOwnAsn:          uint32(pconf.AsPathOptions.Config.AllowOwnAs),
 			ReplacePeerAsn:       pconf.AsPathOptions.Config.ReplacePeerAs,
@@ -765,6 +782,7 @@ func NewPeerGroupFromConfigStruct(pconf *PeerGroup) *api.PeerGroup {
 		},
 		Transport: &api.Transport{
 			RemotePort:    uint32(pconf.Transport.Config.RemotePort),
+			LocalPort:     uint32(pconf.Transport.Config.LocalPort),
 			LocalAddress:  pconf.Transport.Config.LocalAddress.String(),
 			PassiveMode:   pconf.Transport.Config.PassiveMode,
 			BindInterface: pconf.Transport.Config.BindInterface,
